@@ -43,7 +43,9 @@ KINDS = ["Sphere", "SphereLayered", "LayeredSphere", "Spheres", "Scatterers", "S
          "EllipsoidDefaults", "ModelTieAlpha", "ModelFixedComplex", "NumpyFuncPrior",
          # a ufunc from outside NumPy, a bound method of a HoloPy object as transformation, a labelled-array value of a bare scatterer,
          # a rigid cluster as member of a collection inside a model
-         "ScipyUfuncPrior", "BoundMethodPrior", "SphereXarrayValue", "ModelNestedRigid"]
+         "ScipyUfuncPrior", "BoundMethodPrior", "SphereXarrayValue", "ModelNestedRigid",
+         # more than ten members (two-digit member numbers in the parameter names), priors on members 1 and 10+
+         "ModelManyMembers"]
 
 
 def cases(tier, seed):
@@ -256,6 +258,14 @@ def _make(what, rng, fl):
         if _REP[0] % 2:
             members = members[::-1]
         return AlphaModel(Scatterers(members), theory=Multisphere(), noise_sd=0.1, medium_index=1.33, illum_wavelen=0.66, illum_polarization=(1, 0))
+    if what == "ModelManyMembers":
+        nmem = 11 + _REP[0] % 4
+        mem = []
+        for j in range(nmem):
+            fitted = j in (1, 10, nmem - 1) or (j == 0 and _REP[0] % 2)
+            mem.append(Sphere(n=1.5 + 0.01 * j, r=_prior(rng, "U") if fitted else 0.1 + 0.01 * j, center=[float(3 * j), _prior(rng, "G") if j == 10 else 0.0, 5.0]))
+        coll = Spheres(mem, warn=False) if _REP[0] % 3 else Scatterers(mem[:2] + [Scatterers(mem[2:])])
+        return AlphaModel(coll, alpha=_prior(rng, "U"), theory=Mie(), noise_sd=0.1, medium_index=1.33, illum_wavelen=0.66, illum_polarization=(1, 0))
     if what == "UfuncPrior":
         p, q = _prior(rng, "U"), _prior(rng, "U")
         return [np.sqrt(p), np.exp(p), np.maximum(p, q), np.add(p, 2.5), np.sin(np.sqrt(p)), TransformedPrior(np.hypot, [p, q], name="h"), 2.0 / p, q / np.sqrt(p)][_REP[0] % 8]
